@@ -1581,8 +1581,12 @@ func genThrottleScenario(r *vh.Run, sc scenCase) *scenario {
 		t.BW = 1
 	}
 	sh.Throttles = []shapex.Throttle{t}
-	if !lastAction || !early {
-		if rng.Intn(2) == 0 && a > 10 { // a second, loose interval before it
+	if !lastAction || !early || inside {
+		// a second, loose interval before it - listed after it, so the
+		// configuration is not in ascending order of start byte; always present
+		// when the range starts inside the biting interval (the initial
+		// bandwidth then depends on finding that interval in the list)
+		if (inside || rng.Intn(2) == 0) && a > 10 {
 			sh.Throttles = append(sh.Throttles, shapex.Throttle{Start: 0, End: a - rng.Int63n(a/2+1), BW: 64 << 20})
 		}
 	}
